@@ -217,6 +217,9 @@ pub fn scenarios(tier: &str) -> Vec<Scenario> {
         tm("T(s0,nP)", t(0, P_NONCES, 8)),
         tm("T(s0,n0,len0)", TxSpec::Transact { signer: 0, nonce: 0, tgt: Tgt::s(), data: vec![6, 0], len: 0 }),
         tm("T(other chain)", TxSpec::TransactRaw { raw: other_chain, len: DEFAULT_LEN }),
+        // signed without replay protection (no chain id): not a transaction of this chain either
+        tm("T(s0,n0,no chain id)", TxSpec::TransactRaw { raw: crate::sign::raw_tx_unprotected(0, 0, Some(Tgt::s().resolve().unwrap().parse().unwrap()), &crate::asm::s_set(1, 11, 0, [0; 4])), len: DEFAULT_LEN }),
+        tm("T(s0,n1,no chain id)", TxSpec::TransactRaw { raw: crate::sign::raw_tx_unprotected(0, 1, Some(Tgt::s().resolve().unwrap().parse().unwrap()), &crate::asm::s_set(1, 12, 0, [0; 4])), len: DEFAULT_LEN }),
         tm("T(garbage)", TxSpec::TransactRaw { raw: vec![0xc0, 1, 2], len: DEFAULT_LEN }),
         tm("I(set)", s_set(0, 0, 1)),
         mac("F", Kind::Growth, vec![Step::Fin]),
@@ -224,6 +227,9 @@ pub fn scenarios(tier: &str) -> Vec<Scenario> {
     let narrow: Vec<Macro> = alpha.iter().filter(|m| ["T(s0,n0)", "T(s0,n1)", "T(s0,n2)", "T(s0,n3)", "T(s1,n0)", "T(s1,n1)", "F"].contains(&m.name.as_str())).cloned().collect();
     alpha.push(mac("M(P-2)", Kind::Growth, vec![Step::Mine(P_BLOCKS - 2)]));
     alpha.push(m_reorg(0, RTarget::Back(1)));
+    // the gap-filling transaction refused for a protocol reason: the waiting set stays what it was
+    alpha.push(mac("refused T(s0,n0) at index+1", Kind::Dev(1), vec![Step::Bad(BadSpec::TxIdx { tx: t(0, 0, 1), idx: IdxSel::Plus1 })]));
+    alpha.push(mac("refused T(s0,n0) carrying the hash of block 1", Kind::Dev(1), vec![Step::Bad(BadSpec::TxExistingHash { tx: t(0, 0, 1), height: 1 })]));
     alpha.push(mac("K", Kind::Dev(1), vec![Step::Clear]));
     alpha.push(m_commit(1));
     let base = start_with_s();
@@ -237,6 +243,9 @@ pub fn scenarios(tier: &str) -> Vec<Scenario> {
     let mut opts = Opts::new("C08", "pool");
     opts.nf_compare = false;
     opts.err_unchanged = true;
+    // which calls must be refused is C05's statement (a stale transaction carrying a wrong index is ignored, not
+    // refused: nothing is appended); here a refused call only has to leave the pool as it was
+    opts.check_expect = false;
     vec![
         Scenario {
             name: "pool-aged".into(),
